@@ -186,11 +186,25 @@ class Module(object):
                 m = self.index.module(mod)
                 if m is not None:
                     return m.fold_name(orig)
+            if '%s.%s' % (mod, orig) in STDLIB_CONSTANTS:
+                return STDLIB_CONSTANTS['%s.%s' % (mod, orig)]
             return Sym(mod, orig)
         if name in self.module_imports:
             return Sym(None, self.module_imports[name])
         raise Unfoldable('unknown name %s in %s' % (name, self.name))
 
+
+def _stdlib_constants():
+    import string
+    out = {}
+    for n in ('ascii_lowercase', 'ascii_uppercase', 'ascii_letters',
+              'digits', 'hexdigits', 'octdigits', 'punctuation',
+              'whitespace'):
+        out['string.' + n] = getattr(string, n)
+    return out
+
+
+STDLIB_CONSTANTS = _stdlib_constants()
 
 BUILTIN_SYMS = {
     'NotImplemented', 'None', 'True', 'False', 'object', 'len', 'isinstance',
@@ -258,6 +272,9 @@ class Folder(object):
                     ca = m.class_assigns(base.name)
                     if node.attr in ca:
                         return m.fold_name(node.attr, base.name)
+            if base.module is None and '%s.%s' % (
+                    base.name, node.attr) in STDLIB_CONSTANTS:
+                return STDLIB_CONSTANTS['%s.%s' % (base.name, node.attr)]
             if base.module is None and base.name == 're':
                 import re
                 if node.attr in ('S', 'DOTALL', 'VERBOSE', 'X', 'I',
